@@ -164,7 +164,25 @@ def answer (line : String) : String :=
             | c :: cs, [] => (c, none) :: pair cs []
             | c :: cs, g :: gs => (c, some (segText g)) :: pair cs gs
           let ops := sessionOps (loadProg dt host banner) pass errText segs (applies == "1") (pair tailReads o.rest) errLines
-          s!"sends={hexLines (sendsOf ops)}\tfinished={hexLines [if o.finished then ['1'] else ['0']]}\t{showSinks (sshRun ops)}"
+          -- the chunk-level echoing device that reproduces the same chunks: an element echoes iff its
+          -- chunk starts with the line the device had just received
+          let rec edev : List Op → Str → EDev
+            | [], _ => []
+            | .send c :: r, _ => edev r c
+            | .expect c :: r, last =>
+              let n := crlf2lf c
+              let sp := n.takeWhile (· == ' ')
+              let rest := n.dropWhile (· == ' ')
+              (if (last ++ ['\n']).isPrefixOf rest then (sp, rest.drop (last.length + 1), true) else ([], n, false)) :: edev r []
+            | _ :: r, last => edev r last
+          let dev := edev o.ops []
+          let opsE := runE pass (loadProg dt host banner) [] dev
+          let flat (l : List Str) : Str := (l.map crlf2lf).flatten
+          let same := !o.finished ||
+            (flat (sshRun opsE).login == flat (sshRun o.ops).login && flat (sshRun opsE).config == flat (sshRun o.ops).config &&
+              sendsOf opsE == sendsOf o.ops)
+          let b (x : Bool) : Str := if x then ['1'] else ['0']
+          s!"sends={hexLines (sendsOf ops)}\tfinished={hexLines [b o.finished]}\techoModel={hexLines [b same]}\tnoecho={hexLines [b (noEchoAtPasswordPrompt dev)]}\t{showSinks (sshRun ops)}"
         | _, _, _, _, _, _, _, _ => "bad-input"
       | "nsx", [pre, user, pass, token, cookie, name, login, reqs, reps] =>
         match unhex pre, unhex user, unhex pass, unhex token, unhex cookie, unhex name, parseNsxLogin login,
